@@ -1558,11 +1558,28 @@ fn gen_install(rng: &mut Rng, info: &FontInfo, prop: &str) -> Option<(FontInfo, 
             }
         }
         if glyphs.len() >= 2 {
-            if rng.pct(30) {
+            let reversed = rng.pct(30);
+            if reversed {
                 // order other than first appearance
                 glyphs.reverse();
             }
-            if want_rchain && rng.pct(35) {
+            if want_rchain && rng.pct(20) {
+                want_expansion = true;
+                let (records, depth) = match rng.below(100) {
+                    0..=79 => (1 + rng.below(6) as u16, 1 + rng.below(3) as u8),
+                    80..=94 => *rng.pick(&[(30u16, 2u8), (10, 3), (100, 1), (3, 5)]),
+                    _ => (*rng.pick(&[100u16, 400, 1500]), 2 + rng.below(3) as u8),
+                };
+                surgeries.push(Surgery::InstallContextFanout {
+                    glyph: glyphs[0],
+                    records,
+                    depth,
+                    variant: rng.below(1 << 16),
+                });
+                // text: the character of that glyph
+                let c = if reversed { chars[chars.len() - 1] } else { chars[0] };
+                chars = vec![c];
+            } else if want_rchain && rng.pct(40) {
                 want_expansion = true;
                 glyphs.truncate(1 + rng.usize_below(6));
                 // mostly small growth (shaping cost is quadratic in the run length); a few
